@@ -21,6 +21,10 @@ type InstSpec struct {
 	Ops    []Op     `json:"ops"`   // writer
 	Reads  []int    `json:"reads"` // reader
 	Chunks []int    `json:"chunks"`
+	// reader: further streams through the same instance, each entered by "R" (Reset of the Reader),
+	// "CR" (Close, then Reset: a Reader that went back to a pool), "CN" (Close, then a new Reader)
+	// or "N" (a new Reader, the old one dropped unclosed)
+	Life []string `json:"life"`
 }
 
 // CCase runs instances concurrently, optionally under an enforced interleaving of their I/O steps.
@@ -178,7 +182,7 @@ func (c *chunkReader) Read(p []byte) (int, error) {
 }
 
 // runInstance executes one instance; g == nil means solo.
-func runInstance(spec *InstSpec, prepared []byte, g *gate, idx int) (digest string, errs string, pan string) {
+func runInstance(spec *InstSpec, prepared [][]byte, g *gate, idx int) (digest string, errs string, pan string) {
 	defer func() {
 		if x := recover(); x != nil {
 			pan = panicString(x)
@@ -232,33 +236,50 @@ func runInstance(spec *InstSpec, prepared []byte, g *gate, idx int) (digest stri
 		}
 		h.Write(buf.Bytes())
 	case "reader":
-		src := &gatedReader{&chunkReader{data: prepared, chunks: spec.Chunks}, g, idx}
 		var dict []byte
 		if spec.Set.Dict != nil {
 			dict = spec.Set.Dict.Bytes()
 		}
-		u, err := newReader("fastgo", spec.Set.Kind, src, dict)
-		if err != nil {
-			return "", "ctor:" + err.Error(), ""
-		}
-		if u.gzHdr != nil {
-			hd := u.gzHdr() // header fields are part of what the instance produces
-			h.Write([]byte(hd.Name + "\x00" + hd.Comment + "\x00"))
-			h.Write(hd.Extra)
-		}
-		reads := spec.Reads
-		if len(reads) == 0 {
-			reads = []int{4096}
-		}
+		var u readerUnderTest
 		buf := make([]byte, 1<<17)
-		for k := 0; ; k++ {
-			sz := reads[k%len(reads)]
-			n, e := u.r.Read(buf[:sz])
-			h.Write(buf[:n])
-			if e != nil {
-				cls, _ := errClassR(e, nil)
-				errs = cls
-				break
+		for k, stream := range prepared {
+			src := &gatedReader{&chunkReader{data: stream, chunks: spec.Chunks}, g, idx}
+			how := "N"
+			if k > 0 {
+				how = spec.Life[k-1]
+			}
+			if how == "CR" || how == "CN" {
+				if cl, ok := u.r.(io.Closer); ok {
+					errs += "close:" + errStr(cl.Close()) + ","
+				}
+			}
+			var err error
+			if how == "R" || how == "CR" {
+				err = u.reset(src, dict)
+			} else {
+				u, err = newReader("fastgo", spec.Set.Kind, src, dict)
+			}
+			if err != nil {
+				return "", errs + "ctor:" + err.Error(), ""
+			}
+			if u.gzHdr != nil {
+				hd := u.gzHdr() // header fields are part of what the instance produces
+				h.Write([]byte(hd.Name + "\x00" + hd.Comment + "\x00"))
+				h.Write(hd.Extra)
+			}
+			reads := spec.Reads
+			if len(reads) == 0 {
+				reads = []int{4096}
+			}
+			for j := 0; ; j++ {
+				sz := reads[j%len(reads)]
+				n, e := u.r.Read(buf[:sz])
+				h.Write(buf[:n])
+				if e != nil {
+					cls, _ := errClassR(e, nil)
+					errs += cls + ","
+					break
+				}
 			}
 		}
 	}
@@ -272,16 +293,18 @@ func execConcCase(c *CCase, arch int, emit func(interface{})) {
 	}
 	emit(CEvent{Ev: "Begin", Case: c.ID, N: len(c.Insts), Steps: len(c.Schedule), Procs: c.Procs})
 	// prepare reader inputs with the standard library's encoders (independent of the code under test)
-	prepared := make([][]byte, len(c.Insts))
+	prepared := make([][][]byte, len(c.Insts))
 	for i := range c.Insts {
 		sp := &c.Insts[i]
 		if sp.Role == "reader" {
-			b, err := encode(EncSpec{Impl: "std", Kind: sp.Set.Kind, Level: sp.Set.Level, Window: 32768, Data: sp.Data, Dict: sp.Set.Dict, Hdr: sp.Set.Hdr})
-			if err != nil {
-				emit(CEvent{Ev: "Crash", Case: c.ID, Panic: "harness: " + err.Error()})
-				return
+			for k := 0; k <= len(sp.Life); k++ {
+				b, err := encode(EncSpec{Impl: "std", Kind: sp.Set.Kind, Level: sp.Set.Level, Window: 32768, Data: epochData(sp.Data, k), Dict: sp.Set.Dict, Hdr: sp.Set.Hdr})
+				if err != nil {
+					emit(CEvent{Ev: "Crash", Case: c.ID, Panic: "harness: " + err.Error()})
+					return
+				}
+				prepared[i] = append(prepared[i], b)
 			}
-			prepared[i] = b
 		}
 	}
 	type res struct{ d, e, p string }
@@ -369,7 +392,18 @@ func randomInstance(rng *rand.Rand, small bool) InstSpec {
 	if set.Kind == "gzip" {
 		set.Hdr = &GzHeader{Name: latin1(rng, 1+rng.Intn(100), true), Comment: latin1(rng, 1+rng.Intn(300), true), OS: 255}
 	}
-	return InstSpec{Role: "reader", Set: set, Data: d, Reads: readSchedules[rng.Intn(len(readSchedules))], Chunks: chunkSchedules[rng.Intn(len(chunkSchedules))]}
+	in := InstSpec{Role: "reader", Set: set, Data: d, Reads: readSchedules[rng.Intn(len(readSchedules))], Chunks: chunkSchedules[rng.Intn(len(chunkSchedules))]}
+	if rng.Intn(2) == 0 {
+		// one to three more streams through the instance: the Reader is reused through Reset (also
+		// after Close, as when it comes back from a pool) or replaced while other instances run
+		for k := 1 + rng.Intn(3); k > 0; k-- {
+			in.Life = append(in.Life, []string{"R", "CR", "CN", "N", "CR"}[rng.Intn(5)])
+		}
+		if n > 20000 {
+			in.Data.Len = 20000 // (several streams: keep the instance's work bounded)
+		}
+	}
+	return in
 }
 
 var _ = time.Second
